@@ -77,3 +77,51 @@ package api
 //@   props C09 C14
 //@   requires rate != nil && iterationDuration > 0
 //@   ensures result != nil
+//@
+//@ // ---- C13: jitter varies each tick but preserves the long-run total (rounded-real float model).
+//@ // Ghost constants fixed when the closure is created: GJj bounds the relative variation (jitter/100 plus float
+//@ // slack), GJrmax bounds the underlying rate, GJB is the fixed bound on the carried balance:
+//@ // GJB*(1-GJj) >= GJj*GJrmax + 1.
+//@ ghost var GJin int
+//@ ghost var GJout int
+//@ ghost var GJrmax int
+//@ ghost var GJreq real
+//@ ghost var GJj real
+//@ ghost var GJB real
+//@ pred jitterConsts(m real) = 0.000001 <= m && m <= 99.0 && GJj == (m / 100.0) * (1.0 + 1.0 / 1048576.0) &&
+//@     0 <= GJrmax && GJrmax <= 17592186044416 && GJB * (1.0 - GJj) >= GJj * real(GJrmax) + 1.0 && 1.0 <= GJB && GJB <= 2251799813685248.0
+//@
+//@ fnspec boundedRate(now time.Time) (r int)
+//@   modifies nothing
+//@   ensures 0 <= r && r <= GJrmax
+//@
+//@ func WithJitter$1
+//@   props C13
+//@   dyncall rate : boundedRate
+//@   inv rate != nil && jitterConsts(multiple)
+//@   inv balance == real(GJin - GJout) && abs(balance) <= GJB
+//@   ghost after call dyn:rate : GJin = GJin + ret0 ; GJreq = real(ret0) + balance
+//@   assert before call math.Round : [factor] abs(variationFactor - 1.0) <= GJj
+//@   ghost before call math.Round : rewrite [req-exact] requestedRate = GJin - GJout
+//@   assert before call math.Round : [req-is] requestedRate == GJreq && abs(requestedRate) <= GJB + real(GJrmax)
+//@   assert before call math.Round : [proposed] abs(proposed - requestedRate) <= GJj * abs(requestedRate) + 1.0 / 1048576.0
+//@   ghost at exit : GJout = GJout + result
+//@   modifies balance, GJin, GJout, GJreq
+//@   ensures [nonneg] result >= 0
+//@   ensures [single-value] GJreq >= 0.0 ==> abs(real(result) - GJreq) <= GJj * GJreq + 0.5 + 1.0 / 1048576.0
+//@   ensures [clamped] GJreq < 0.0 ==> result == 0
+//@   ensures [carried] balance == GJreq - real(result)
+//@
+//@ func WithJitter
+//@   props C13 C10
+//@   requires rate != nil
+//@   requires multiple == 0.0 || (jitterConsts(multiple) && GJin == GJout)
+//@   ensures [identity] multiple == 0.0 ==> result == rate
+//@   ensures [jittered] multiple != 0.0 ==> result != nil
+//@
+//@ // the carried balance bounds the drift of the running totals for every prefix
+//@ lemma jitterDrift
+//@   props C13
+//@   vars sin int, sout int, bal real, B real
+//@   hyp bal == real(sin - sout) && abs(bal) <= B
+//@   goal abs(real(sout - sin)) <= B
